@@ -1,6 +1,7 @@
 (** C13 — Reordering statistics always yield a valid, frequency-ordered mapping. *)
 From Vib Require Import Model.Base Model.Lattice Model.Tokenizer Model.EvalLog Model.Mapper
-  Proofs.Viterbi Proofs.TokenizerProofs Proofs.WorkerProofs Proofs.CountProofs Proofs.MapperProofs.
+  Proofs.Viterbi Proofs.TokenizerProofs Proofs.WorkerProofs Proofs.CountProofs Proofs.MapperProofs
+  Model.Float Proofs.FloatOrder.
 From Coq Require Import Permutation Sorted.
 Local Open Scope N_scope.
 
@@ -29,6 +30,19 @@ Proof. exact probs_order_sorted. Qed.
 Theorem c13_probs_accepted : forall cnt, N.of_nat (length cnt) <= 65535 -> exists t, mapper_parse (probs_order cnt) = Ok t.
 Proof. exact probs_order_accepted. Qed.
 
+(** The code sorts by the binary64 quotients count / total ([p2.partial_cmp(p1)], ties and NaN by id); the model
+    sorts by the counts. They are the same order whenever the total number of counted evaluations is below 2^53:
+    the correctly rounded quotients of distinct integers by a common total below 2^53 are distinct, and with
+    total = 0 every quotient is NaN. ([prob_order] is the comparator written with Flocq's IEEE-754 division and
+    comparison, Model/Float.v; the check of every run recomputes the listed statistics with the same functions.) *)
+Theorem c13_float_order : forall cnt a b, total_of cnt < 2 ^ 53 ->
+  before cnt a b =
+  match prob_order (Z.of_N a) (Z.of_N (cnt_of cnt a)) (Z.of_N b) (Z.of_N (cnt_of cnt b)) (Z.of_N (total_of cnt)) with
+  | Gt => false
+  | _ => true
+  end.
+Proof. exact before_is_prob_order. Qed.
+
 Example c13_example : probs_order [7; 2; 5; 5; 0; 9] = [5; 2; 3; 1; 4].
 Proof. vm_compute. reflexivity. Qed.
 Example c13_before_meaning : before [7; 2; 5; 5; 0; 9] 2 3 = true /\ before [7; 2; 5; 5; 0; 9] 3 2 = false /\ before [7; 2; 5; 5; 0; 9] 5 1 = true.
@@ -41,3 +55,4 @@ Print Assumptions c13_empty_sentence.
 Print Assumptions c13_probs_perm.
 Print Assumptions c13_probs_sorted.
 Print Assumptions c13_probs_accepted.
+Print Assumptions c13_float_order.
